@@ -3,8 +3,10 @@
 Histories of parseable bursts (library-serialised PDU -> Burst -> as_bytes -> Burst.from_bytes; voice bursts from a sync
 pattern or an EMB word plus hash-expanded vocoder bits) are fed to one Terminal (two timeslots).  Observers: terminal level
 [raiser, recorder]; per timeslot [terminal, recorder, raiser, recorder].  After every burst the runner checks the
-invariants I1..I7 (see RULE).  ``secrets`` as looked up by okdmr.dmrlib.transmission.transmission is replaced by a counter
-while a runner lives, so that "fresh stream id" is exact.
+invariants I1..I7 (see RULE).  While a runner lives ``secrets.token_bytes`` (on the real ``secrets`` module, and every name
+in an okdmr.dmrlib module namespace that is bound to that function) is replaced by a counter, so that "fresh stream id" is
+exact; a probe verifies that the library's stream ids really come from the counter, otherwise freshness is judged against
+the recent ids only (see StreamIds).  Library internals are only touched defensively (getattr with fallbacks).
 """
 from __future__ import annotations
 
@@ -54,6 +56,13 @@ ASSUMPTIONS = [
     "no liveness is demanded (the statement does not say *when* a transmission must end) - that part is C07's",
     "voice bursts that precede the first voice-sync burst of a voice transmission (late entry) carry no label requirement",
     "Timeslot.last_packet_received (wall clock) is not observed",
+    "library surface the harness relies on (all used by the repository's own tests or documented as the observation points of the "
+    "property): Terminal(dmrid, observers), Terminal.timeslots[n], WithObservers.add_observer, Terminal.process_incoming_burst, "
+    "the three observer callbacks, Burst.from_bytes / as_bytes and the Burst attributes sequence_no, stream_no, voice_burst, the "
+    "PDU classes' constructors / as_bits / from_bits and the rate blocks' data, crc32, dbsn, is_confirmed(), is_last_block().  "
+    "Tracker state is read as timeslot.transmission.type (fallback: .is_idle; if neither exists the idle clause is skipped and "
+    "counted), stream ids additionally as timeslot.transmission.stream_no (recording only).  blocks_expected, blocks_received, "
+    "reset_rx_sequence, last_voice_burst and other internals are never read",
     "inbound metadata is stamped on Burst.from_bytes objects by attribute assignment (sequence_no, stream_no, source_radio_id, "
     "target_radio_id, timeslot) - the attributes from_hytera_ipsc / from_mmdvm populate; the hytera_ipsc frame object itself is "
     "not attached.  I4 and I6 judge the values on the Burst returned by process_incoming_burst",
@@ -89,7 +98,9 @@ class _Lib:
             from bitarray import bitarray
             from bitarray.util import int2ba
 
-            import okdmr.dmrlib.transmission.transmission as transmission_module
+            import secrets as real_secrets_module
+
+            import okdmr.dmrlib.transmission.transmission  # noqa: F401  (make sure the tracker modules are loaded)
             from okdmr.dmrlib.etsi.layer2.burst import Burst
             from okdmr.dmrlib.etsi.layer2.elements.burst_types import BurstTypes
             from okdmr.dmrlib.etsi.layer2.elements.csbk_opcodes import CsbkOpcodes
@@ -157,18 +168,11 @@ class _Lib:
                 def voice_transmission_ended(self, voice_header, blocks):
                     self._boom("voice_transmission_ended")
 
-            class CounterSecrets:
-                """stands in for the ``secrets`` module inside okdmr.dmrlib.transmission.transmission"""
-
-                def __init__(self):
-                    self.n = 0
-
-                def token_bytes(self, k=4):
-                    self.n += 1
-                    return self.n.to_bytes(k, "big")
+            real_token_bytes = real_secrets_module.token_bytes
+            if getattr(real_token_bytes, "_vp_counter", False):
+                raise HarnessError("secrets.token_bytes is still patched by an earlier runner")
 
             cls._ns = dict(locals())
-            cls._ns["REAL_SECRETS"] = transmission_module.secrets
         return cls._ns
 
 
@@ -297,6 +301,119 @@ def _bits01(o):
     return o.as_bits().to01()
 
 
+# ---------------------------------------------------------------------------------------------- deterministic stream ids
+
+
+class StreamIds:
+    """Counter in place of ``secrets.token_bytes`` for the lifetime of a runner.  Installed on the real ``secrets`` module
+    (covers ``import secrets`` / ``secrets.token_bytes(..)`` and helpers that call it) and on every name in a loaded
+    okdmr.dmrlib module namespace that is bound to the real function (covers ``from secrets import token_bytes [as x]``).
+    Everything is restored by ``remove()``."""
+
+    def __init__(self):
+        L = _Lib.get()
+        self.real = L["real_token_bytes"]
+        self.secrets_module = L["real_secrets_module"]
+        self.n = 0
+        self.issued = set()
+        self.restore = []
+
+        def counting_token_bytes(nbytes=None):
+            k = 32 if nbytes is None else int(nbytes)
+            self.n += 1
+            v = self.n.to_bytes(max(k, 8), "big")[-k:] if k > 0 else b""
+            self.issued.add(v)
+            return v
+
+        counting_token_bytes._vp_counter = True
+        self.fn = counting_token_bytes
+
+    def install(self):
+        import sys
+
+        for name, mod in list(sys.modules.items()):
+            if mod is None or not name.startswith("okdmr.dmrlib"):
+                continue
+            try:
+                ns = vars(mod)
+            except TypeError:
+                continue
+            for attr, val in list(ns.items()):
+                if val is self.real:
+                    self.restore.append((mod, attr, val))
+                    setattr(mod, attr, self.fn)
+        self.restore.append((self.secrets_module, "token_bytes", self.real))
+        self.secrets_module.token_bytes = self.fn
+
+    def remove(self):
+        while self.restore:
+            obj, attr, val = self.restore.pop()
+            try:
+                setattr(obj, attr, val)
+            except Exception:  # pragma: no cover
+                pass
+
+
+_SHIM_PROBE = {}
+
+
+def _public_stream_id(slot):
+    """stream id of a timeslot's tracker through today's public attributes; None when not observable"""
+    tr = getattr(slot, "transmission", None)
+    v = getattr(tr, "stream_no", None)
+    return bytes(v) if isinstance(v, (bytes, bytearray)) else None
+
+
+def _tracker_idle(slot, L):
+    """True / False, or None when the tracker's state is not observable through the public surface"""
+    tr = getattr(slot, "transmission", None)
+    if tr is None:
+        return None
+    typ = getattr(tr, "type", None)
+    if typ is not None:
+        return typ == L["TransmissionTypes"].Idle or getattr(typ, "name", None) == "Idle"
+    flag = getattr(tr, "is_idle", None)
+    if flag is None:
+        return None
+    try:
+        return bool(flag() if callable(flag) else flag)
+    except Exception:
+        return None
+
+
+def shim_effective():
+    """Probe once per process: with the counter installed, do the stream ids the library hands out (at construction and after
+    a transmission has ended) come from the counter?"""
+    if "ok" not in _SHIM_PROBE:
+        L = _Lib.get()
+        ids = StreamIds()
+        ids.install()
+        ok = False
+        try:
+            term = L["Terminal"](Runner.DMRID, [])
+            vh = {"k": "vhdr", "ts": 1, "cc": 1, "flco": "group", "so": 0, "pf": 0, "crc": 0, "x": 0}
+            seen = []
+            for op in (vh, {**vh, "k": "term"}, vh):
+                raw, btype = build_burst(op)
+                out = term.process_incoming_burst(L["Burst"].from_bytes(raw, burst_type=L["BurstTypes"][btype]), 1)
+                seen.append(bytes(out.stream_no))
+            ok = ids.n >= 3 and all(v in ids.issued for v in seen) and len(set(seen)) == 3
+        except Exception:
+            ok = False
+        finally:
+            ids.remove()
+        _SHIM_PROBE["ok"] = ok
+    return _SHIM_PROBE["ok"]
+
+
+def note_shim(ctx: Ctx):
+    """called by every driver before it forks: probe the shim, leave a note in the evidence when it is not effective"""
+    if not shim_effective():
+        note = "stream_id_shim: ineffective (stream ids do not come from secrets.token_bytes as patched; I4 freshness judged against the ids of the last 8 starts only)"
+        if note not in ctx.tally.notes:
+            ctx.tally.notes.append(note)
+
+
 # ---------------------------------------------------------------------------------------------- runner
 
 
@@ -305,9 +422,9 @@ class Runner:
 
     def __init__(self):
         L = self.L = _Lib.get()
-        self.tm = L["transmission_module"]
-        self.counter = L["CounterSecrets"]()
-        self.tm.secrets = self.counter  # the library looks up the module global ``secrets`` and calls .token_bytes(4)
+        self.exact_ids = shim_effective()
+        self.ids = StreamIds()
+        self.ids.install()
         try:
             self.t_raiser = L["Raiser"]("terminal-raiser", True)
             self.t_rec = L["Recorder"]("terminal-recorder")
@@ -322,7 +439,15 @@ class Runner:
         except BaseException:
             self.close()
             raise
-        self.seen_ids = {self.term.timeslots[ts].transmission.stream_no for ts in (1, 2)}
+        import collections
+
+        first = [v for v in (_public_stream_id(self.term.timeslots[ts]) for ts in (1, 2)) if v is not None]
+        if self.exact_ids and not (first and all(v in self.ids.issued for v in first)):
+            self.exact_ids = False  # this terminal does not draw its ids from the counter after all
+        self.seen_ids = set(first)
+        self.recent_ids = collections.deque(first, maxlen=10)  # fallback when the counter shim is not effective
+        self.last_id = {1: None, 2: None}
+        self.idle_unobservable = 0
         # model, per timeslot
         self.starts = {1: [], 2: []}  # [{kind, pdu_pos, burst_index, ended}]
         self.pdus = {1: [], 2: []}  # [(class name, bits01 | rate-octets hex)] block-like PDUs in arrival order
@@ -345,7 +470,7 @@ class Runner:
         self.n_same_object = 0
 
     def close(self):
-        self.tm.secrets = self.L["REAL_SECRETS"]
+        self.ids.remove()
 
     # -- ops -------------------------------------------------------------------------------------
     def apply(self, op):
@@ -384,13 +509,22 @@ class Runner:
         if self.inbound is not None:
             # what a transport adapter (Burst.from_hytera_ipsc / from_mmdvm) sets from the frame before the burst reaches the terminal
             hv = int.from_bytes(hashlib.sha256(f"inbound:{self.inbound}:{self.n_fed}".encode()).digest()[:8], "big")
-            burst.sequence_no = hv % 256  # mostly non-zero, 0 once in a while
-            # a stream id that is already known (the first value of the counter) most of the time: a tracker that fails to
-            # overwrite it cannot pass the freshness clause
-            burst.stream_no = (1).to_bytes(4, "big") if (hv >> 8) % 4 else hashlib.sha256(str(hv).encode()).digest()[:4]
-            burst.source_radio_id = 1 + (hv >> 16) % 0xFFFFFF
-            burst.target_radio_id = self.DMRID
-            burst.timeslot = op.get("ts", 1)
+            ts_in = op.get("ts", 1)
+            stale = self.last_id.get(ts_in) or (1).to_bytes(4, "big")
+            for attr, val in (
+                ("sequence_no", hv % 256),  # mostly non-zero, 0 once in a while
+                # mostly a stream id that is already known (the one the previous burst on this timeslot got): a tracker that
+                # fails to overwrite it cannot pass the freshness clause
+                ("stream_no", stale if (hv >> 8) % 4 else hashlib.sha256(str(hv).encode()).digest()[:4]),
+                ("source_radio_id", 1 + (hv >> 16) % 0xFFFFFF),
+                ("target_radio_id", self.DMRID),
+                ("timeslot", ts_in),
+            ):
+                if hasattr(burst, attr):
+                    try:
+                        setattr(burst, attr, val)
+                    except Exception:  # a read-only attribute after a refactoring: the adapter could not set it either
+                        pass
             self.n_stamped += 1
         return burst
 
@@ -453,13 +587,24 @@ class Runner:
         # I4
         slot = self.term.timeslots[ts]
         if ended_in_call and not started_after_end:
-            ttype = slot.transmission.type
-            if ttype != L["TransmissionTypes"].Idle:
-                raise Fail("tracker_idle_after_ended", ttype.name, "Idle")
-            if out.stream_no in self.seen_ids:
-                raise Fail("fresh_stream_id_after_ended", {"stream_no": bytes(out.stream_no).hex()}, "an id never used before in this history")
-        self.seen_ids.add(out.stream_no)
-        self.seen_ids.add(slot.transmission.stream_no)
+            idle = _tracker_idle(slot, L)
+            if idle is None:
+                self.idle_unobservable += 1
+            elif not idle:
+                raise Fail("tracker_idle_after_ended", str(getattr(getattr(slot, "transmission", None), "type", "not idle")), "Idle")
+            sid = bytes(out.stream_no)
+            if self.exact_ids:
+                if sid in self.seen_ids:
+                    raise Fail("fresh_stream_id_after_ended", {"stream_no": sid.hex()}, "an id never used before in this history")
+            elif sid in self.recent_ids:
+                # ids are really random here: equal to one of the last few ids has probability ~1e-8, so it means 'not renewed'
+                raise Fail("fresh_stream_id_after_ended", {"stream_no": sid.hex()}, "an id different from the ids of the last starts in this history")
+        for v in (bytes(out.stream_no), _public_stream_id(slot)):
+            if v is not None:
+                self.seen_ids.add(v)
+                if v not in self.recent_ids:
+                    self.recent_ids.append(v)
+        self.last_id[ts] = bytes(out.stream_no)
 
         # I5
         if k == "vsync":
@@ -608,6 +753,10 @@ class Runner:
             out.append("history_with_terminal_raiser_fired")
         if not (s["ended_voice"] or s["ended_data"]):
             out.append("history_without_any_ended")
+        if not self.exact_ids:
+            out.append("history_with_stream_id_shim_ineffective")
+        if self.idle_unobservable:
+            out.append("history_with_tracker_state_unobservable")
         if self.n_stamped:
             out.append("history_with_inbound_metadata")
             if s["seq_wrap"]:
@@ -804,6 +953,7 @@ def run_machine(ctx: Ctx, sub: str, machine_cls, max_examples: int, step_count: 
 
 
 def drv_machine(ctx: Ctx, sub: SubCheck):
+    note_shim(ctx)
     rules, prefix = _strategies()
     M = make_machine("TransmissionTrackingMachine", Runner, rules, initial_ops=prefix)
 
@@ -838,6 +988,7 @@ def _alphabet():
 
 
 def drv_exhaustive(ctx: Ctx, sub: SubCheck):
+    note_shim(ctx)
     import itertools
 
     alpha = _alphabet()
@@ -950,6 +1101,7 @@ def _judge_history(ctx: Ctx, sub_name: str, case, t: Tally):
 
 
 def drv_boundary(ctx: Ctx, sub: SubCheck):
+    note_shim(ctx)
     items = _boundary_histories(ctx)
     chunks = [items[i::64] for i in range(64)]
 
@@ -1000,6 +1152,7 @@ def _long_run_histories():
 
 
 def drv_long_runs(ctx: Ctx, sub: SubCheck):
+    note_shim(ctx)
     items = _long_run_histories()
 
     def work(item, t: Tally):
